@@ -3,6 +3,7 @@
 From Coq Require Import ZArith List Bool Lia.
 From VV Require Import lib.PyInt lib.PyFloat gen.GenTables gen.GenScaling model.Scaling model.FpMath proofs.FpMathProofs
   proofs.ScalingProofs proofs.NpuExecProofs hw.Npu hw.NpuExec model.Rewrites proofs.RewritesProofs.
+Import ListNotations.
 Open Scope Z_scope.
 
 (* The TFL scaling mode of the executable hardware semantics IS the reference kernels' requantisation
@@ -203,7 +204,32 @@ Theorem dilated_rewrite_always_same_refuted :
     chain d k w n 0 0 x y <> dilated_conv d k w n (((Z.of_nat k - 1) * d) / 2) x y.
 Proof. exact always_same_refuted_lemma. Qed.
 
+(* ---- fixup_dilation_gt2: dilations beyond the hardware's 1 and 2 ---- *)
+(* spreading the k taps of a filter over (k - 1) * r + 1 positions and filling the positions in between with the
+   weights' zero point is the dilation by r: for every filter, zero point, signal, position and tap distance *)
+Theorem widened_kernel_is_dilation :
+  forall (r k : nat) w zp f q s, (1 <= r)%nat -> (1 <= k)%nat ->
+    taps (widened_len k r) (fun j => widened r w zp j - zp) f q s =
+    taps k (fun j => w j - zp) f q (Z.of_nat r * s).
+Proof. exact widened_taps_lemma. Qed.
+
+(* the hardware's share (1 for odd, 2 for even dilations) times the kernel's share is the dilation asked for *)
+Theorem dilation_split_exact :
+  forall d, 0 < d -> hw_dilation d * kernel_spread d = d /\ (hw_dilation d = 1 \/ hw_dilation d = 2).
+Proof. exact dilation_split. Qed.
+
+(* the two-dimensional kernel the code writes is, row by row, the widened row or filling only *)
+Theorem widened_kernel_rows :
+  forall kh kw rh rw w fill h', (h' < widened_len kh rh)%nat ->
+    nth h' (widened2 kh kw rh rw w fill) [] =
+    if (h' mod rh =? 0)%nat then widened_list kw rw (nth (h' / rh)%nat w []) fill
+    else map (fun _ => fill) (seq 0 (widened_len kw rw)).
+Proof. exact widened2_rows. Qed.
+
 Print Assumptions space_to_batch_conv_batch_to_space_is_dilation.
+Print Assumptions widened_kernel_is_dilation.
+Print Assumptions dilation_split_exact.
+Print Assumptions widened_kernel_rows.
 Print Assumptions dilated_chain_equals_dilated_convolution.
 Print Assumptions dilated_rewrite_decision_sound.
 Print Assumptions dilated_rewrite_always_same_refuted.
